@@ -112,6 +112,10 @@ class Indicator(ABC):
         self.candles_lifespan = manager.candles_lifespan
         self.candlestick_type = manager.candlestick_type
 
+        # helper series that already exist (an indicator that was used before) move with their owner
+        for indicator in list(self.sub_indicators.values()) + list(self.managed_indicators.values()):
+            indicator.candle_manager = manager
+
     @property
     def name(self) -> str:
         """The indicator name that will be saved into the Candles"""
